@@ -129,8 +129,16 @@ func main() {
 		}
 		e := w.engine(d, l)
 		for _, o := range opaques {
-			if strings.HasPrefix(o, "hof:") {
-				e.hof[strings.TrimPrefix(o, "hof:")] = 0
+			if strings.HasPrefix(o, "hof:") { // hof:<callee>[#idx[#method]]
+				parts := strings.Split(strings.TrimPrefix(o, "hof:"), "#")
+				idx := 0
+				if len(parts) > 1 {
+					fmt.Sscan(parts[1], &idx)
+				}
+				e.hof[parts[0]] = idx
+				if len(parts) > 2 {
+					e.hofMethod[parts[0]] = parts[2]
+				}
 				continue
 			}
 			e.opaque[o] = true
